@@ -554,7 +554,13 @@ func readFile(rc *RunCtx, format int, data []byte, cfg readCfg) *readResult {
 		}
 	})
 	rr.batches = collected
-	rc.Log("read cfg=%s delivered=%d reads=%d", cfg, len(collected), rd.Reads)
+	// what a free-running decompressor goroutine had read ahead when a fatal stopped the run is
+	// not part of the outcome: the event log keeps the deterministic facts only
+	if rr.res.Exited || rr.res.Deadlock {
+		rc.Log("read cfg=%s stopped", cfg)
+	} else {
+		rc.Log("read cfg=%s delivered=%d", cfg, len(collected))
+	}
 	return rr
 }
 
